@@ -24,9 +24,23 @@ def block(s, start):
         j += 1
     raise SystemExit("unbalanced")
 r = html.unescape(open(rep).read())
-a, b = block(r, f'_c("{pid}",')
-new = r[a:b]
-compile(new.replace("_c(", "dict(pid=", 1).replace(f'dict(pid="{pid}",', "(", 1), "x", "eval")   # must be a python tuple expression
+new = None
+pos = 0
+key = f'_c("{pid}",'
+while True:
+    k = r.find(key, pos)
+    if k < 0:
+        break
+    pos = k + 1
+    try:
+        a, b = block(r[k:], key)
+        cand = r[k:][a:b]
+        compile(cand.replace("_c(", "dict(pid=", 1), "x", "eval")   # must be a python call expression
+        new = cand      # keep the LAST well-formed occurrence
+    except (SystemExit, SyntaxError, ValueError):
+        continue
+if new is None:
+    raise SystemExit("no well-formed entry found in " + rep)
 p = os.path.join(here, "props_table.py")
 s = open(p).read()
 a, b = block(s, f'_c("{pid}",')
